@@ -5,7 +5,23 @@ sys.path.insert(0, os.path.dirname(os.path.dirname(os.path.abspath(__file__))))
 os.environ.setdefault("PYTHONHASHSEED", "0")
 
 
+def _quiet_monitors():
+    """file / model monitor threads of bptk objects outlive the scratch directories they watch: their complaints are noise"""
+    import threading
+    default = threading.excepthook
+
+    def hook(args):
+        tb = args.exc_traceback
+        while tb is not None:
+            if "modelmonitor" in tb.tb_frame.f_code.co_filename:
+                return
+            tb = tb.tb_next
+        default(args)
+    threading.excepthook = hook
+
+
 def main():
+    _quiet_monitors()
     ap = argparse.ArgumentParser()
     ap.add_argument("prop")
     ap.add_argument("--tier", default=os.environ.get("VERIF_TIER", "quick"), choices=["quick", "thorough"])
@@ -30,4 +46,6 @@ def main():
 
 
 if __name__ == "__main__":
-    sys.exit(main())
+    rc = main()
+    sys.stdout.flush(); sys.stderr.flush()
+    os._exit(rc or 0)       # bptk objects that read scenario files start non-daemon file-monitor threads: do not wait for them
